@@ -49,6 +49,20 @@ func main() {
 		}
 		return
 	}
+	if cmd == "origins" {
+		p, err := Load()
+		if err != nil {
+			fmt.Println(err)
+			os.Exit(2)
+		}
+		for _, cs := range p.allCallsTo(os.Args[2]) {
+			fmt.Println(p.siteOf(cs.Instr), shortFn(cs.Caller))
+			for _, o := range p.dbOrigins(cs.Caller, receiverOf(cs.Instr)) {
+				fmt.Println("   ", o.String(), o.Site)
+			}
+		}
+		return
+	}
 	run, ok := props[cmd]
 	if !ok {
 		fmt.Printf("UNDECIDED property=%s reason=no such check\n", cmd)
